@@ -174,7 +174,9 @@ def instrument(s, calls):
     step_size.g_prox."""
     import scico.optimize._pgmaux as aux
     ss = s.step_size
-    st = {"active": False, "fcalls": [], "reals": [], "prox": [], "fq": []}
+    # hist: the harness's OWN record of the arguments passed to update() and of grad f at them
+    st = {"active": False, "fcalls": [], "reals": [], "prox": [], "fq": [], "hist": []}
+    f_plain = s.f
     s.f = FWrap(s.f, st)
     fqa = s.f_quad_approx
 
@@ -209,8 +211,20 @@ def instrument(s, calls):
     upd = ss.update
     real_snp = aux.snp if not isinstance(aux.snp, RealProxy) else aux.snp._m
 
+    def idof(obj):
+        if obj is None:
+            return None
+        for i in range(len(st["hist"]) - 1, -1, -1):
+            if st["hist"][i][0] is obj:
+                return i
+        return 999999
+
     def update(v):
-        c = {"is_x": v is s.x, "is_v": v is getattr(s, "v", None), "pgmL": s.L, "v": v,
+        bbpol = hasattr(ss, "xprev")
+        hist = st["hist"]
+        prev = hist[-1] if hist else None
+        gcur = np.asarray(f_plain.grad(v)) if bbpol else None
+        c = {"prev": prev, "cur_id": len(hist), "gcur": gcur, "is_x": v is s.x, "is_v": v is getattr(s, "v", None), "pgmL": s.L, "v": v,
              "x": s.x, "first": getattr(ss, "xprev", 0) is None,
              "xprev": getattr(ss, "xprev", None), "gradprev": getattr(ss, "gradprev", None),
              "m1": getattr(ss, "Lbb1prev", None), "m2": getattr(ss, "Lbb2prev", None),
@@ -227,6 +241,9 @@ def instrument(s, calls):
         finally:
             aux.snp = real_snp
             st["active"] = False
+        if bbpol:
+            hist.append((v, gcur))
+            c.update(mem_after=idof(ss.xprev), gradprev_after=ss.gradprev)
         c.update(L=L, reals=list(st["reals"]), prox=list(st["prox"]), fz=list(st["fcalls"]),
                  fq=list(st["fq"]), m1n=getattr(ss, "Lbb1prev", None), m2n=getattr(ss, "Lbb2prev", None),
                  Tkn=getattr(ss, "Tk", None), Zrbn=getattr(ss, "Zrb", None), Z=getattr(ss, "Z", None))
@@ -340,6 +357,16 @@ def fixed_specs(steps):
             # negative curvature only
             out.append({"kind": "diagquad", "complex": False, "cls": cls, "policy": pol, "steps": steps,
                         "L0": 2.0, "d": [-1.0, -0.5], "g": ["zero"], "x0": [1.0, -1.0]})
+            # double well x^4/4 - x^2/2: negative-curvature step (Re<dx,dg> < 0, fall-back) followed by
+            # steps in the convex region (positive ratio): the stored point must have advanced
+            out.append({"kind": "quartic", "complex": False, "cls": cls, "policy": pol, "steps": steps,
+                        "L0": 1.0, "d": [1.0], "g": ["zero"], "x0": [0.25]})
+            out.append({"kind": "quartic", "complex": False, "cls": cls, "policy": pol, "steps": steps,
+                        "L0": 1.0, "d": [1.0, 1.0], "g": ["zero"], "x0": [0.25, -0.5]})
+            out.append({"kind": "quartic", "complex": True, "cls": cls, "policy": pol, "steps": steps,
+                        "L0": 1.0, "d": [1.0, 1.0], "g": ["zero"], "x0": [[0.25, 0.0], [0.0, -0.25]]})
+            out.append({"kind": "diagquad", "complex": True, "cls": cls, "policy": pol, "steps": steps,
+                        "L0": 4.0, "d": [2.0, -1.0], "g": ["zero"], "x0": [[1.0, 0.5], [0.25, 1.0]]})
             # stationary start
             out.append({"kind": "lsq", "complex": False, "cls": cls, "policy": pol, "steps": steps,
                         "L0": 2.0, "A": [[1.0, 0.5], [0.0, 1.0]], "y": [2.0, 2.0], "g": ["zero"], "x0": [1.0, 2.0]})
@@ -420,7 +447,7 @@ def check_call(ctx, spec, c, s, items, report=True):
         ctx.dist["non-finite inner product (overflow, outside the model)"] = ctx.dist.get("non-finite inner product (overflow, outside the model)", 0) + 1
     if posfin(c["pgmL"]) and not posfin(L) and not overflow:
         inp = brief(spec, c)
-        if kind in ("bb", "abb") and not c["first"]:
+        if kind in ("bb", "abb") and len(c["reals"]) == (2 if kind == "bb" else 3):
             r = [float(t) for t in c["reals"]]
             if kind == "bb":
                 inp.update(den=r[0], num=r[1])
@@ -434,33 +461,62 @@ def check_call(ctx, spec, c, s, items, report=True):
         return viol
     if kind in ("bb", "abb"):
         r = [float(t) for t in c["reals"]]
-        if not c["first"]:
-            # the recorded scalars are the documented inner products of the differences
-            v, xp = np.asarray(c["v"]), np.asarray(c["xprev"])
-            dx = v - xp
-            dg = np.asarray(s.f._f.grad(c["v"])) - np.asarray(c["gradprev"])
+        prev = c["prev"]                      # the IMMEDIATELY PRECEDING update argument (harness record)
+        nip = 2 if kind == "bb" else 3
+        if c["first"] != (prev is None):
+            V(unit, "policy's stored previous point is missing / present unexpectedly",
+              brief(spec, c, first=c["first"], preceding_updates=c["cur_id"]))
+        if c["mem_after"] != c["cur_id"]:
+            V(unit, "after update() the stored previous point is not the current argument",
+              brief(spec, c, stored_id=c["mem_after"], current_id=c["cur_id"]),
+              expected=c["cur_id"], observed=c["mem_after"], oracle="C16_bb_memory_is_current")
+        elif not np.array_equal(np.asarray(c["gradprev_after"]), c["gcur"]):
+            V(unit, "after update() the stored gradient is not grad f at the current argument", brief(spec, c))
+        exact = None
+        if prev is not None:
+            # documented inner products: differences between the current and the preceding argument
+            dx = np.asarray(c["v"]) - np.asarray(prev[0])
+            dg = c["gcur"] - prev[1]
             want = [(dx, dg), (dg, dg)] if kind == "bb" else [(dx, dx), (dx, dg), (dg, dg)]
-            if len(r) != len(want):
-                V(unit, "unexpected number of inner products formed", brief(spec, c, n=len(r)))
-                return viol
-            for (a, b), got in zip(want, r):
-                ex, mag = exact_ip(a, b)
-                if ex is None:
-                    continue
-                if abs(Fraction(got) - ex) > Fraction(1, 10**12) * mag:
-                    V(unit, "inner product differs from Re<.,.> of the iterate/gradient differences",
-                      brief(spec, c), expected=float(ex), observed=got, oracle="exact rational inner product")
-        else:
-            r = [0.0, 0.0, 0.0]
+            exact = [exact_ip(a, b) for a, b in want]
+            if any(e[0] is None for e in exact):
+                exact = None
+        if prev is not None and exact is not None:
+            ok = len(r) == nip
+            if ok:
+                for (ex, mag), got in zip(exact, r):
+                    if not math.isfinite(got) or abs(Fraction(got) - ex) > Fraction(1, 10**12) * mag:
+                        ok = False
+            if not ok:
+                V(unit, "inner products used differ from Re<.,.> of the differences between the current and the "
+                        "immediately preceding update argument", brief(spec, c, used=r),
+                  expected=[float(e[0]) for e in exact], observed=r, oracle="exact rational inner products")
+                r = [float(e[0]) for e in exact]      # the model is evaluated on the documented values
+            if kind == "bb" and posfin(c["pgmL"]):
+                (xg_e, xg_m), (gg_e, _) = exact
+                if abs(xg_e) > Fraction(1, 10**6) * xg_m:          # well conditioned quotient
+                    ratio = gg_e / xg_e
+                    wantL = float(ratio) if ratio > 0 else float(c["pgmL"])
+                    if not abs(L - wantL) <= 1e-9 * abs(wantL):
+                        V(unit, "returned L is not the documented ratio of consecutive differences (or pgm.L when it is <= 0)",
+                          brief(spec, c, ratio=float(ratio)), expected=wantL, observed=L,
+                          oracle="C16_bb_ratio_or_previous on the harness's own record of the update arguments")
+        elif len(r) != (0 if c["first"] else nip):
+            V(unit, "unexpected number of inner products formed", brief(spec, c, n=len(r)))
+            return viol
+        if len(r) != nip:
+            r = [0.0] * nip
+        memb = "None" if prev is None else f"(Some {c['cur_id'] - 1}%nat)"
+        mema = "None" if c["mem_after"] is None else f"(Some {c['mem_after']}%nat)"
         if kind == "bb":
-            den, num = (r[0], r[1]) if not c["first"] else (0.0, 0.0)
-            items["bb"].append((f"({xr(c['pgmL'])}, {str(c['first']).lower()}, {xr(num)}, {xr(den)}, {xr(L)})",
+            den, num = r
+            items["bb"].append((f"({xr(c['pgmL'])}, {memb}, {c['cur_id']}%nat, {xr(num)}, {xr(den)}, {xr(L)}, {mema})",
                                 (unit, "update differs from the model", brief(spec, c, den=den, num=num))))
         else:
             xx, xg, gg = r
-            items["abb"].append((f"({qc(pol[1])}, {xr(c['pgmL'])}, {str(c['first']).lower()}, "
-                                 f"({oxr(c['m1'])}, {oxr(c['m2'])}), {xr(xx)}, {xr(xg)}, {xr(gg)}, {xr(L)}, "
-                                 f"({oxr(c['m1n'])}, {oxr(c['m2n'])}))",
+            items["abb"].append((f"({qc(pol[1])}, {xr(c['pgmL'])}, {memb}, "
+                                 f"({oxr(c['m1'])}, {oxr(c['m2'])}), {c['cur_id']}%nat, {xr(xx)}, {xr(xg)}, {xr(gg)}, {xr(L)}, "
+                                 f"{mema}, ({oxr(c['m1n'])}, {oxr(c['m2n'])}))",
                                  (unit, "update differs from the model",
                                   brief(spec, c, xx=xx, xg=xg, gg=gg, m1=fl(c["m1"]), m2=fl(c["m2"])))))
         return viol
@@ -614,7 +670,7 @@ def gen_direct(rng):
         dg = [[-t for t in p] for p in dx] if cplx else [-t for t in dx]  # negative ratio
     elif r < 0.6:
         dg = cvec(rng, n, cplx, 0, 0, 0)                     # dg = 0: 0/den
-    mem = lambda: rng.choice([None, None, 0.5, 2.0, float("inf"), 1.0, 3.0])
+    mem = lambda: rng.choice([None, None, 0.5, 2.0, 0.125, 1.0, 3.0])   # memory invariant: None or finite > 0
     return {"direct": True, "cls": "PGM", "complex": cplx, "policy": [kind] if kind == "bb" else ["abb", rng.choice([0.5, 0.25, 0.75])],
             "dx": dx, "dg": dg, "pgmL": rng.choice([1.0, 2.0, 0.5, 4.0, float("inf"), float("nan"), 3.0]),
             "m1": mem(), "m2": mem(), "xprev": cvec(rng, n, cplx)}
@@ -626,7 +682,7 @@ def fixed_direct():
         for dx, dg in (([0.0, 0.0], [0.0, 0.0]), ([1.0, 0.0], [0.0, 1.0]), ([0.0, 0.0], [1.0, -1.0]),
                        ([1.0, 1.0], [-1.0, -1.0]), ([1.0, 2.0], [2.0, 1.0]), ([0.0, 0.0], [-1.0, -1.0]),
                        ([1.0, 0.0], [0.0, 0.0])):
-            for m in ((None, None), (1.0, 2.0), (float("inf"), 1.0)):
+            for m in ((None, None), (1.0, 2.0), (None, 1.0)):
                 out.append({"direct": True, "cls": "PGM", "complex": False, "policy": kind, "dx": dx, "dg": dg, "pgmL": 2.0,
                             "m1": m[0], "m2": m[1], "xprev": [0.5, -1.0]})
     return out
@@ -655,7 +711,8 @@ def run_direct(spec):
     if spec["policy"][0] == "abb":
         ss.Lbb1prev, ss.Lbb2prev = spec["m1"], spec["m2"]
     calls = []
-    instrument(s, calls)
+    st = instrument(s, calls)
+    st["hist"].append((ss.xprev, np.asarray(ss.gradprev)))   # the crafted "preceding argument"
     ss.update(v)
     c = calls[-1]
     c.update(step=None, x_old=s.x, v_old=None, x_new=None)
@@ -674,8 +731,8 @@ CHECKERS = {
 
 
 CASE_TY = {
-    "bb": "(xq * bool * xq * xq * xq)",
-    "abb": "(Qc * xq * bool * (option xq * option xq) * xq * xq * xq * xq * (option xq * option xq))",
+    "bb": "(xq * option nat * nat * xq * xq * xq * option nat)",
+    "abb": "(Qc * xq * option nat * (option xq * option xq) * nat * xq * xq * xq * xq * option nat * (option xq * option xq))",
     "ls": "(Qc * (Qc * nat * Qc * list trial * Qc))",
     "rls": "(Qc * (Qc * Qc * nat * Qc * Qc * list trial * option (Qc * Qc * Qc)))",
     "arg": "(nat * bool * nat * nat)",
@@ -710,8 +767,8 @@ def run(ctx: Ctx):
         ctx.proofs()
         try:
             from vf.common import coq_make
-            coq_make(["Findings/C16_bb_inf.vo", "Findings/C16_linesearch_exhaust.vo"])
-            ctx.notes.append("Findings/C16_bb_inf.v and Findings/C16_linesearch_exhaust.v compile: the refutation "
+            coq_make(["Findings/C16_linesearch_exhaust.vo"])
+            ctx.notes.append("Findings/C16_linesearch_exhaust.v compiles: the refutation "
                              "witnesses of the full statements still hold for the model")
         except Broken as b:
             ctx.notes.append("finding no longer reproduces in Coq: " + b.what)
@@ -732,7 +789,7 @@ def run(ctx: Ctx):
                         "gamma_u > 0, gamma_d > 0 for positivity of the line-search results"]
     items = {"bb": [], "abb": [], "ls": [], "rls": [], "arg": []}
     steps = ctx.n(6, 10)
-    specs = fixed_specs(steps) + [gen_spec(ctx.rng, ctx.rng.randint(3, steps)) for _ in range(ctx.n(25, 600))]
+    specs = fixed_specs(steps) + [gen_spec(ctx.rng, ctx.rng.randint(3, steps)) for _ in range(ctx.n(15, 600))]
     for spec in specs:
         check_traj(ctx, spec, items)
     dspecs = fixed_direct() + [gen_direct(ctx.rng) for _ in range(ctx.n(100, 2000))]
